@@ -349,6 +349,19 @@ def _classify_mask(ctx, inner, flag, func_param):
     return masked, leaks
 
 
+def _reads_module_state(ctx, f):
+    """(name, node) if f reads a module-level list/dict/set (mutable state)."""
+    from .modelstate import _mutable_literal
+    for n in own_nodes(f):
+        if isinstance(n, ast.Name) and isinstance(n.ctx, ast.Load):
+            r = ctx.cg.resolve_name_expr(f, n)
+            if r and r[0] == 'var':
+                vals = r[1].assigns.get(r[2]) or []
+                if vals and all(_mutable_literal(v) for v in vals):
+                    return r[2], n
+    return None
+
+
 def rule_nomemo(ctx, reaching, reach):
     spec = ctx.spec('volatile')
     rr = RuleResult('C13', 'C13.nomemo', 'EFF',
@@ -380,6 +393,19 @@ def rule_nomemo(ctx, reaching, reach):
                             w.is_global, w.describe()),
                         file=f.module.rel, function=f.qualname, line=w.lineno,
                         path=cg.path_to(fwd, fq))
+                continue
+            shared = _reads_module_state(ctx, f)
+            if shared:
+                nm, node = shared
+                rr.fail(key_of(f, 'volatile value taken from module-level state'),
+                        '%s lies on a call path from volatile %s to %s and '
+                        'reads the module-level mutable object `%s` (line %d): '
+                        'what it returns can be a value that some earlier '
+                        'calculation left there instead of a fresh reading' % (
+                            f.qualname, reg.key, sorted(reach[fq])[0], nm,
+                            node.lineno),
+                        file=f.module.rel, function=f.qualname,
+                        line=node.lineno, path=cg.path_to(fwd, fq))
                 continue
             if decs:
                 rr.fail(key_of(f, 'memoised on volatile path'),
@@ -670,7 +696,76 @@ def rule_randint(ctx):
     return rr
 
 
+def rule_direct(ctx):
+    """Who may evaluate a cell: the compiled function of a Cell/Ref (`.func`) is
+    called by the dispatcher through CellWrapper.__call__ only.  A direct call
+    from loading code runs volatile cores at that moment - outside a dispatch
+    the COMPILING mask is not in force - and whatever stores the result has
+    frozen it."""
+    rr = RuleResult('C13', 'C13.direct', 'WHO',
+                    'a cell function is evaluated only through the dispatcher',
+                    floor=1)
+    p = ctx.project
+    cell = p.cls('formulas/cell.py', 'Cell')
+    wrapper = p.cls('formulas/cell.py', 'CellWrapper')
+    family = set(p.subclasses(cell)) | {cell}
+    allowed = {m.fq for m in wrapper.methods.values() if m.name == '__call__'}
+    n_sites = 0
+    for f in p.functions.values():
+        owner = f
+        while owner is not None and owner.cls is None:
+            owner = owner.parent
+        selfn = owner.params[0] if owner is not None and owner.params else None
+        for n in own_nodes(f):
+            if not (isinstance(n, ast.Call) and isinstance(
+                    n.func, ast.Attribute) and n.func.attr == 'func'):
+                continue
+            recv = n.func.value
+            is_cell = False
+            if isinstance(recv, ast.Name) and recv.id == selfn and \
+                    owner.cls is not None and (
+                    owner.cls in family or owner.cls is wrapper):
+                is_cell = True
+            else:
+                for c in ctx.cg.receiver_classes(f, recv) if hasattr(
+                        ctx.cg, 'receiver_classes') else []:
+                    if c in family:
+                        is_cell = True
+                if not is_cell and isinstance(recv, ast.Name):
+                    # a local bound from a Cell/Ref constructor call
+                    from ..util import assigned_value
+                    for v in assigned_value(f, recv.id):
+                        for c in ast.walk(v):
+                            if isinstance(c, ast.Call) and isinstance(
+                                    c.func, (ast.Name, ast.Attribute)):
+                                r = ctx.cg.resolve_name_expr(f, c.func)
+                                if r and r[0] == 'class' and r[1] in family:
+                                    is_cell = True
+            if not is_cell:
+                continue
+            n_sites += 1
+            rr.instances += 1
+            if f.fq in allowed:
+                rr.ok('%s calls the cell function: this is the dispatcher '
+                      'entry' % f.qualname, '%s:%d' % (f.module.rel, n.lineno))
+            else:
+                rr.fail(key_of(f, 'evaluates a cell function directly'),
+                        '%s calls `%s` itself. Cell functions are meant to be '
+                        'run by the dispatcher (CellWrapper.__call__ during a '
+                        'calculation); a direct call evaluates the formula - '
+                        'volatile functions included - at that moment, and a '
+                        'caller that keeps the result has fixed it at load or '
+                        'compile time' % (f.qualname, norm_src(n)[:60]),
+                        file=f.module.rel, function=f.qualname, line=n.lineno)
+    if not n_sites:
+        raise AnalysisError('C13.direct: the dispatcher entry '
+                            'CellWrapper.__call__ -> self.func(...) was not '
+                            'found')
+    return rr
+
+
 def run(ctx):
     r1, reaching, reach = rule_impure(ctx)
     return [r1, rule_mask(ctx), rule_nomemo(ctx, reaching, reach),
-            rule_sites(ctx), rule_refs(ctx), rule_randint(ctx)]
+            rule_sites(ctx), rule_refs(ctx), rule_direct(ctx),
+            rule_randint(ctx)]
